@@ -27,7 +27,7 @@ _TS = "XonshVerif.Model.TokenSource"
 THEOREMS = {
     "C01": _INERT + [("XV.Helpers.kw_defaults_length", _HELP), ("XV.Helpers.defaults_le_positional", _HELP), ("XV.Helpers.args_order", _HELP),
                      ("XV.Src.kept_no_trivia", _TS), ("XV.Src.kept_sublist", _TS)],
-    "C07": [("XV.Macro.loop_partition", _PM), ("XV.Macro.param_is_concat", _PM), ("XV.Macro.concat_is_source_slice", _PM)],
+    "C07": [("XV.WithMacro.with_macro_lines_verbatim", "XonshVerif.Proofs.WithMacro"), ("XV.WithMacro.step_facts", "XonshVerif.Proofs.WithMacro"), ("XV.Macro.loop_partition", _PM), ("XV.Macro.param_is_concat", _PM), ("XV.Macro.concat_is_source_slice", _PM)],
     "C08": [("XV.Tz.tokens_are_source_slices", "XonshVerif.Properties.C08"), ("XV.Tz.splitLines_nonLastEndNL", "XonshVerif.Properties.C08"), ("XV.Tz.tokenizeLines_cov", "XonshVerif.Proofs.TokCover"),
             ("XV.Tz.scanLine_cov", "XonshVerif.Proofs.TokCover"), ("XV.Tz.nextStatement_cov", "XonshVerif.Proofs.TokCover"),
             ("XV.Tz.tokenize_structure", "XonshVerif.Properties.C08"), ("XV.Tz.prefix_depth_defined", "XonshVerif.Properties.C08"), ("XV.Tz.tokenizeLines_struct", "XonshVerif.Proofs.TokStructure"),
@@ -355,6 +355,19 @@ def corr_helpers(pid, kinds):
                 x, _fn, _args = xonshgen.gen_call_macro(r)
                 srcs.append(f"r = {x}\n")
             srcs += ["f!(a[)\n", "f!(]\n", "f!(,x)\n", "f!(a, (b]\n", "f!(x\n", "f!( ñ , y)\n", "f!()\n", "f!(a,)\n", "f!(a)(b)!(c, d)\n"]
+        if "withmacro" in kinds:
+            from harness.props import c07
+
+            for _ in range(300 * n):
+                st, _ctx, _body = xonshgen.gen_with_macro(r)
+                srcs.append(r.choice(c07.BEFORE) + st + r.choice(c07.AFTER))
+                if r.random() < 0.2:
+                    srcs.append(st.rstrip("\n"))
+                if r.random() < 0.15 and "\x0c" not in st and "\x85" not in st and "\u2028" not in st:
+                    srcs.append(st.replace("\n", "\r\n"))
+            q3 = "'" * 3
+            srcs += ["with! a:\n", "with! a: x\n", "with! a:\n    # only a comment\n", "with! a:\n\n\n    b\n\n", "with! a:\n\tb\n  c\n", "def f():\n    with! a:\n        b\n    return 1\n",
+                     "with! a:\n    b\nwith! c:\n    d\n", f"with! a:\n  {q3}x\ny\nz{q3}\n", f"with! a: {q3}x\ny{q3}\nk = 1\n", "with! a:\n    b \\\n  c\n    d\n"]
         if "makeargs" in kinds:
             srcs += [s for s in corpus.PY_STMTS if "def " in s or "lambda" in s]
             for _ in range(150 * n):
@@ -407,7 +420,7 @@ def corr_getlines(pid):
 
 
 CORR = {
-    "C07": [corr_helpers("C07", ("macro",))],
+    "C07": [corr_helpers("C07", ("macro", "withmacro"))],
     "C11": [corr_helpers("C11", ("builderr",))],
     "C06": [corr_c06],
     "C01": [corr_peg("C01", xonsh=False), corr_helpers("C01", ("makeargs",))],
